@@ -546,6 +546,26 @@ def check(ctx):
     ok = len(s1) == 2
     ctx.ob("R20-f", mw, "bound-method calls go through the shared wrapper (instance is part of the key)", ok,
            detail="" if ok else "_LRUMethodWrapper.__call__ no longer forwards to the wrapper", by=("self.__wrapper(self.__instance, *args, **kwargs)",))
+    # ... with the instance as first argument exactly when there is one (`is None`, not falsiness: an empty container-like instance is an
+    # instance), and with all of the caller's arguments
+    inst_attr = [n_.attr for n_ in ast.walk(ctx.fn("_LRUMethodWrapper.__init__", FN).node) if isinstance(n_, ast.Attribute) and isinstance(n_.ctx, ast.Store)
+                 and isinstance(getattr(n_, "_parent", None), ast.Assign) and norm(n_._parent.value) == ctx.fn("_LRUMethodWrapper.__init__", FN).node.args.args[2].arg]
+    if ctx.need("R20-f", mw, "the field of _LRUMethodWrapper that stores the bound instance", len(inst_attr), 1):
+        inst = f"self.{inst_attr[0]}"
+        va, kw_ = mw.node.args.vararg, mw.node.args.kwarg
+        for m_, env_ in s1:
+            c_ = m_.value.value if isinstance(m_, ast.Return) else None
+            if not isinstance(c_, ast.Call):
+                continue
+            a_ = [norm(x) for x in c_.args]
+            tail_ok = bool(va and kw_) and a_[-1:] == [f"*{va.arg}"] and [norm(k.value) for k in c_.keywords if k.arg is None] == [kw_.arg]
+            ctx.ob("R20-f", mw, "the caller's positional and keyword arguments are forwarded unchanged", tail_ok, node=m_, by=("*args, **kwargs",),
+                   detail="" if tail_ok else f"`{norm(m_)}` does not forward *args/**kwargs")
+            if a_[:1] == [inst]:
+                ctx.require_at("R20-f", mw, m_, [[f"{inst} is not None"]], instance="the instance is passed (and becomes part of the key) whenever there is one", what="bound call")
+            else:
+                ctx.require_at("R20-f", mw, m_, [[f"{inst} is None"]], instance="the call omits the instance only when there is none (access through the class)",
+                               what="unbound call")
     cc = ctx.fn("AsyncLRUCacheWrapper.cache_clear", FN)
     s2 = ctx.sites(cc, "$C.pop(self, None)")
     z = ctx.sites(cc, "self._hits = self._misses = self._currsize = 0")
